@@ -1,10 +1,12 @@
 (** Fields.v — WarcFields (warcfields.go) and normalizeName (headerfielddef.go)
     as executable functions, and the reference ordered multimap they are
     supposed to implement (property C18). *)
-Require Import Model.Bytes Model.FieldDef Gen.FieldTable.
+Require Import Model.Bytes Model.FieldDef.
 Open Scope N_scope.
 
 Section Fields.
+(* the header field table (headerfielddef.go: fieldDefs), regenerated from /repo into Gen/FieldTable.v *)
+Variable tbl : list fielddef.
 (* strings.ToLower on input that is not pure ASCII (Unicode case folding and
    replacement of invalid UTF-8) is an oracle; the ASCII case is modelled. *)
 Variable uni_lower : bytes -> bytes.
@@ -13,7 +15,7 @@ Definition lower (s : bytes) : bytes := if all_ascii s then ascii_lower s else u
 
 (* lcHdrNameToDef: a Go map filled in table order, so the last row wins *)
 Definition lookup_def (lc : bytes) : option fielddef :=
-  find (fun d => bytes_eqb (ascii_lower (fd_name d)) lc) (rev field_table).
+  find (fun d => bytes_eqb (ascii_lower (fd_name d)) lc) (rev tbl).
 
 (* RFC 7230 tchar, textproto.validHeaderFieldByte *)
 Definition is_tchar (c : byte) : bool :=
